@@ -454,7 +454,13 @@ unsafe fn do_spawn<F: PreExec>(
     let (ours, theirs) = setup_io(default_stdio, needs_stdin, stdin, stdout, stderr)?;
     let sync_pipe = rusl::unistd::pipe2(OpenFlags::O_CLOEXEC)?;
     // Owned, so that both ends are closed on every return path (fork failure included)
-    let (read_pipe, write_pipe) = (OwnedFd(sync_pipe.in_pipe), OwnedFd(sync_pipe.out_pipe));
+    let (read_pipe, mut write_pipe) = (OwnedFd(sync_pipe.in_pipe), OwnedFd(sync_pipe.out_pipe));
+    // The child redirects 0..=2 before it may have to report a failure: when the caller runs with a standard
+    // descriptor closed the sync pipe can land inside that range, keep the child's end out of it
+    if write_pipe.0.value() <= STDERR.value() {
+        let moved = rusl::unistd::fcntl_dupfd_cloexec(write_pipe.0, Fd::comptime_checked_new(3))?;
+        write_pipe = OwnedFd(moved);
+    }
     let child_pid = rusl::process::fork()?;
     // From this point we're two processes
     if child_pid == 0 {
